@@ -88,6 +88,9 @@ func (a *HMACAuth) Verify(r *http.Request, requestPath string, body []byte) erro
 	} else {
 		a.nonce.setNow(now)
 	}
+	if a.nonce.forgotten(t) {
+		return ErrUnauthorized
+	}
 	if !a.nonce.seenOnce(nonce, t.Add(a.Tolerance)) {
 		return ErrUnauthorized
 	}
@@ -126,13 +129,19 @@ func (a *HMACAuth) Verify(r *http.Request, requestPath string, body []byte) erro
 
 // InheritNonceCache makes a share prev's replay cache, so that nonces accepted
 // before a configuration reload stay rejected after it. A longer tolerance on a
-// extends the remembered windows accordingly.
+// extends the remembered windows accordingly; requests signed so long ago that
+// their window had already closed under prev's tolerance (their nonces may have
+// been purged) stay refused.
 func (a *HMACAuth) InheritNonceCache(prev *HMACAuth) {
 	if a == nil || prev == nil || prev == a || prev.nonce == nil {
 		return
 	}
 	if delta := a.Tolerance - prev.Tolerance; delta > 0 {
-		prev.nonce.extend(delta)
+		now := time.Now
+		if prev.Now != nil {
+			now = prev.Now
+		}
+		prev.nonce.extend(delta, now().UTC().Add(-prev.Tolerance))
 	}
 	a.nonce = prev.nonce
 }
@@ -154,6 +163,10 @@ type nonceCache struct {
 	mu  sync.Mutex
 	now func() time.Time
 	m   map[string]time.Time
+	// floor: requests signed before it are refused. It only moves when the
+	// tolerance is raised, to the oldest signed time whose window was still
+	// open under the previous tolerance.
+	floor time.Time
 }
 
 func newNonceCache(now func() time.Time) *nonceCache {
@@ -175,12 +188,25 @@ func (c *nonceCache) setNow(now func() time.Time) {
 	c.mu.Unlock()
 }
 
-func (c *nonceCache) extend(by time.Duration) {
+// extend lengthens every remembered window by `by`. Entries whose window had
+// closed are already purged, so requests signed before oldestOpen (the oldest
+// signed time whose window was still open) must stay refused: a longer
+// tolerance does not re-admit them.
+func (c *nonceCache) extend(by time.Duration, oldestOpen time.Time) {
 	c.mu.Lock()
 	defer c.mu.Unlock()
 	for k, exp := range c.m {
 		c.m[k] = exp.Add(by)
 	}
+	if oldestOpen.After(c.floor) {
+		c.floor = oldestOpen
+	}
+}
+
+func (c *nonceCache) forgotten(signedAt time.Time) bool {
+	c.mu.Lock()
+	defer c.mu.Unlock()
+	return signedAt.Before(c.floor)
 }
 
 func (c *nonceCache) seenOnce(nonce string, expiresAt time.Time) bool {
